@@ -1,5 +1,5 @@
 CONSTANTS
-  Archs = {1, 2}
+  Archs = {1}
   Dets = {1, 2}
   Watch <- MCWatch1
   Variant = "ok"
